@@ -35,6 +35,7 @@ type Alloc struct {
 	Reserved     bool // labelled reserved by an administrator
 	UID          string
 	BindTime     bool // allocated by a scheduling attempt after its Filter call had returned (i.e. in Bind)
+	BindReason   string
 	MaxHeld      int // largest number of IPs the deployment held under its prefix at any instant since Step
 }
 
@@ -50,18 +51,23 @@ type modelState struct {
 	poolSize map[string][]sizePoint // pool name -> history of sizes in API truth
 	poolView map[string][]sizePoint // pool name -> history of sizes in the lister view
 	filterWin map[string]*filterWindow // pod uid -> open Filter window
+	foreignDelete map[string]int // app/pool prefix -> step of the last delete under it by the release API, a reload or the world
+	replicaHist   map[*App][]sizePoint
+	mixedUIDs     map[string]bool // identity -> its key held IPs recorded for two different incarnations at some instant
 }
 
 type filterWindow struct {
 	app          *App
 	hadReserve   bool // an unowned IP was stored under the app/pool prefix at every step of the window
+	gateClosed   bool // the deployment's pods held >= replicas IPs at every step of the window
+	hadIPAfterFilter bool // the identity held an IP when the filter call returned
 	closed       bool
 	start        int
 }
 
 func newModel() *modelState {
 	return &modelState{idents: map[string]*Ident{}, allocs: map[string]*Alloc{}, adminRel: map[string]bool{}, poolSize: map[string][]sizePoint{}, poolView: map[string][]sizePoint{},
-		filterWin: map[string]*filterWindow{}}
+		filterWin: map[string]*filterWindow{}, foreignDelete: map[string]int{}, replicaHist: map[*App][]sizePoint{}, mixedUIDs: map[string]bool{}}
 }
 
 func (w *World) livePodWithKey(key string) *PodInfo {
@@ -253,8 +259,10 @@ func (w *World) releaseJustified(al *Alloc, by *core.Task) (bool, string) {
 		case "dp":
 			// the oracle runs right after the object was removed from the store: count it back in
 			held := w.countUnderPrefix(id.App.poolPrefix()) + 1
-			if al.MaxHeld > held {
-				held = al.MaxHeld // galaxy may have counted a moment ago
+			// galaxy counts and releases under the deployment lock; only an actor outside that lock (the release API, a
+			// reload) can have removed an IP between the count and this delete: then the earlier, larger count stands
+			if al.MaxHeld > held && by != nil && w.M.foreignDelete[id.App.poolPrefix()] >= by.Born {
+				held = al.MaxHeld
 			}
 			if al.MinReplicas == 0 || held > al.MinReplicas {
 				return true, ""
@@ -347,4 +355,18 @@ func maxSizeSince(h []sizePoint, step int) (int, bool) {
 		unsized = true // no Pool object existed when the window opened
 	}
 	return max, unsized
+}
+
+// noteReplicas records a workload's replica count (API truth) for window queries.
+func (w *World) noteReplicas(a *App) {
+	w.M.replicaHist[a] = append(w.M.replicaHist[a], sizePoint{w.S.Steps, a.Replicas})
+}
+
+// maxReplicasSince returns the largest replica count in force since step.
+func (w *World) maxReplicasSince(a *App, step int) int {
+	m, _ := maxSizeSince(w.M.replicaHist[a], step)
+	if m < 0 {
+		m = a.Replicas
+	}
+	return m
 }
